@@ -338,7 +338,7 @@ func (t Table) matchingHosts(req *http.Request, globCache *GlobCache) (hosts []s
 // matchingHostNoGlob returns the route from the
 // routing table which matches the normalized request hostname.
 func (t Table) matchingHostNoGlob(req *http.Request) (hosts []string) {
-	host := normalizeHostNoLower(req.Host, req.TLS != nil)
+	host := normalizeHost(req.Host, req.TLS != nil)
 
 	for pattern := range t {
 		normpat := normalizeHost(pattern, req.TLS != nil)
